@@ -140,7 +140,14 @@ def run(ctx, rep):
         r.missing("processor::Context::key")
         return
     ck = lib.adts.get("processor::ContextKey")
-    vn = [v["name"] for v in ck["variants"]]
+    vn = [v["name"] for v in ck["variants"]] if ck else []
+    if "Value" not in vn or "Results" not in vn:
+        # fail closed: the rule decides the key through its two shapes (the input / the list of selected values,
+        # one Option per selection); a key of another shape - a digest, a string - is not something it can judge
+        r.bad("Context::key#shape", "the key of a row is not the two-variant ContextKey (the input when nothing is "
+              "selected, otherwise one Option per selection, so that an absent value is told from a present one in "
+              "another column): variants %s (unrecognised idiom)" % vn, kb.where())
+        return
     cadt = lib.adts.get("processor::Context")
     fields = [f["name"] for f in cadt["variants"][0]["fields"]]
     if "results" not in fields:
